@@ -151,6 +151,8 @@ func buildOps() {
 		}
 		hs[75+7] = hs[75+6]
 	}
+	xSigIdx := append([]byte(nil), xSig...)
+	xSigIdx[3] = 21 // index field beyond the last leaf of a height-4 tree
 	blobW4 := make([]byte, 4+32+133*32+4*32)
 	blobW256 := make([]byte, 4+32+34*32+4*32)
 	ops = []op{
@@ -228,6 +230,8 @@ func buildOps() {
 		// same entry point with other parameters at the same height (a parameter cache keyed on part of the parameters)
 		{"xmss.VerifyWithCustomWOTSParamW(4, sized blob)", func() string { return fmt.Sprint(xmss.VerifyWithCustomWOTSParamW(xMsg, blobW4, xPK, 4)) }},
 		{"xmss.VerifyWithCustomWOTSParamW(256, sized blob)", func() string { return fmt.Sprint(xmss.VerifyWithCustomWOTSParamW(xMsg, blobW256, xPK, 256)) }},
+		// a signature whose index field names a leaf the tree does not have (an early-exit path of the verifier)
+		{"xmss.Verify(index field out of range)", func() string { return fmt.Sprint(xmss.Verify(xMsg, xSigIdx, xPK)) }},
 	}
 	for i := range ops {
 		f := ops[i].f
@@ -266,6 +270,7 @@ type execReq struct {
 	Prefix   []int    `json:"prefix"`
 	Conflict []string `json:"conflict"`
 	Seq      bool     `json:"seq"` // run the ops sequentially on one thread (histories / solo)
+	Prior    []int    `json:"prior,omitempty"` // operations run to completion, one after the other, before the scenario starts
 }
 
 type execResp struct {
@@ -277,6 +282,7 @@ type execResp struct {
 	Acc        map[string][]uint8 `json:"acc"`
 	PointsSeen int64              `json:"points_seen"`
 	Fixtures   string             `json:"fixtures"`
+	Prior      []string           `json:"prior,omitempty"`
 }
 
 func childExec(reqJSON string) {
@@ -288,6 +294,7 @@ func childExec(reqJSON string) {
 	loadFixtures()
 	buildOps()
 	var resp execResp
+	var prior []string
 	if rq.Seq {
 		for _, i := range rq.Ops {
 			if strings.HasPrefix(ops[i].name, "sharedKey.") {
@@ -297,6 +304,10 @@ func childExec(reqJSON string) {
 		}
 	} else {
 		prepare(rq.Ops)
+		prepare(rq.Prior)
+		for _, i := range rq.Prior {
+			prior = append(prior, ops[i].f())
+		}
 		sc := &e2.Scenario{Reset: func() {}}
 		for _, i := range rq.Ops {
 			sc.Bodies = append(sc.Bodies, ops[i].f)
@@ -309,6 +320,7 @@ func childExec(reqJSON string) {
 		resp = execResp{Choices: x.Choices, Pts: x.Pts, Results: x.Results, Deadlock: x.Deadlock, Horizon: x.Horizon, Acc: x.Acc, PointsSeen: x.PointsSeen}
 	}
 	resp.Fixtures = fixtureDigest()
+	resp.Prior = prior
 	b, _ := json.Marshal(&resp)
 	fmt.Println(string(b))
 }
@@ -339,6 +351,25 @@ func freshBackend(idx []int, fixtureBad *bool) e2.Backend {
 		}
 		if r.Fixtures != fx.Solo["fixtures"] {
 			*fixtureBad = true
+		}
+		return &e2.Exec{Choices: r.Choices, Pts: r.Pts, Results: r.Results, Deadlock: r.Deadlock, Horizon: r.Horizon, Acc: r.Acc, PointsSeen: r.PointsSeen}
+	}
+}
+
+// priorBackend: every execution in a fresh process in which the prior operations ran (alone, to completion) first.
+func priorBackend(prior, idx []int, fixtureBad *bool, priorBad *string) e2.Backend {
+	return func(prefix []int, conflict []string) *e2.Exec {
+		r, errs := spawn(execReq{Ops: idx, Prefix: prefix, Conflict: conflict, Prior: prior})
+		if r == nil {
+			return &e2.Exec{Err: errs}
+		}
+		if r.Fixtures != fx.Solo["fixtures"] {
+			*fixtureBad = true
+		}
+		for k, p := range prior {
+			if k < len(r.Prior) && r.Prior[k] != fx.Solo[ops[p].name] {
+				*priorBad = fmt.Sprintf("%s: expected %s observed %s", ops[p].name, fx.Solo[ops[p].name], r.Prior[k])
+			}
 		}
 		return &e2.Exec{Choices: r.Choices, Pts: r.Pts, Results: r.Results, Deadlock: r.Deadlock, Horizon: r.Horizon, Acc: r.Acc, PointsSeen: r.PointsSeen}
 	}
@@ -413,10 +444,12 @@ func namesOf(idx []int) (string, []string) {
 }
 
 var cappedSoFar int
+var scenarioPrefix string
 
 func exploreCase(c *drv.Ctx, i int64, kind string, idx []int, be e2.Backend, bound int) *e2.Stats {
 	e2.Progress = c.Tick
 	name, exp := namesOf(idx)
+	name = scenarioPrefix + name
 	budget := 15 * time.Second
 	if c.Tier == "thorough" {
 		budget = 120 * time.Second
@@ -493,8 +526,17 @@ func raceRun(sel string) {
 		var k int
 		fmt.Sscan(parts[1], &k)
 		runSet([]func() string{canaryOps[k].f, canaryOps[k].f, canaryOps[k].f}, 20)
-	case "pair":
+	case "pair", "after":
 		var a, b, reps int
+		if parts[0] == "after" {
+			var p int
+			fmt.Sscan(parts[1], &p)
+			parts = parts[1:]
+			prepare([]int{p})
+			if r := ops[p].f(); r != fx.Solo[ops[p].name] {
+				fmt.Printf("RESULT-DIFFERS prior op=%q expected=%s observed=%s\n", ops[p].name, fx.Solo[ops[p].name], r)
+			}
+		}
 		fmt.Sscanf(parts[1], "%d,%d", &a, &b)
 		fmt.Sscan(parts[2], &reps)
 		prepare([]int{a, b})
@@ -697,10 +739,56 @@ func main() {
 			}
 		}})
 	// race pass (separate -race build, free-running), every pair in its own fresh process
-	ck.Domains = append(ck.Domains, &drv.Domain{Name: "race-pass", Size: int64(npairs) + 3, Chunk: 4, Desc: "free-running -race build: every pair as 4 goroutines (a,b,a,b) started together as the first library calls of a fresh process, plus the canary (racy variant must be reported by the detector, sync.Once variant must not)",
+	raceSel := func(c *drv.Ctx, i int64, sel string, canary int) {
+		bin := os.Getenv("VERIF_RACE_BIN")
+		cmd := exec.Command(bin)
+		cmd.Env = append(os.Environ(), "VERIF_C15_RACE="+sel, "GORACE=halt_on_error=0 exitcode=0 history_size=2")
+		var eb bytes.Buffer
+		cmd.Stderr = &eb
+		out, err := cmd.Output()
+		ran := int64(strings.Count(string(out), "RAN "))
+		c.Eval(1)
+		c.Nontrivial(ran)
+		c.Count("race_pass_scenarios", ran)
+		races := strings.Count(eb.String(), "WARNING: DATA RACE")
+		c.Count("race_reports", int64(races))
+		if canary >= 0 {
+			k := canary
+			c.Outcome(fmt.Sprintf("canary %d races=%v", k, races > 0))
+			if err != nil || ((k == 0) != (races > 0) && k != 1) {
+				c.Fail(i, fmt.Sprintf("race-canary-%d-reported=%v(infrastructure)", k, races > 0), map[string]any{"err": fmt.Sprint(err), "stderr": tail(eb.String(), 2000)})
+			}
+			return
+		}
+		if err != nil {
+			// a Go runtime fatal error (e.g. concurrent map writes) is a finding of the free-running pass
+			if !strings.Contains(eb.String(), "go-qrllib") {
+				c.Cap("a race-pass process could not be run (infrastructure): " + err.Error())
+				return
+			}
+			key := "race-pass-process-crashed:" + firstLibFrame(eb.String())
+			if strings.Contains(eb.String(), "fatal error: concurrent map") {
+				key = "fatal-concurrent-map-access:" + firstLibFrame(eb.String())
+			}
+			c.Fail(i, key, map[string]any{"selection": sel, "err": err.Error(), "stderr": tail(eb.String(), 3000)})
+			return
+		}
+		c.Outcome(fmt.Sprintf("races=%v", races > 0))
+		if k := strings.Index(string(out), "RESULT-DIFFERS"); k >= 0 {
+			line := string(out)[k:]
+			if e := strings.Index(line, "\n"); e > 0 {
+				line = line[:e]
+			}
+			c.Fail(i, "free-running-result-differs-from-solo", map[string]any{"selection": sel, "first": line, "data_race_reports": races})
+		}
+		if races > 0 {
+			fn := firstLibFrame(eb.String())
+			c.Fail(i, "data-race:"+fn, map[string]any{"selection": sel, "reports": races, "first_report": tail(firstReport(eb.String()), 4000)})
+		}
+	}
+	ck.Domains = append(ck.Domains, &drv.Domain{Name: "race-pass", Size: int64(npairs) + 3, Chunk: 4, Desc: "free-running -race build: every pair as 4 goroutines (a,b,a,b) started together as the first library calls of a fresh process, plus the canary (racy variant must be reported by the detector, sync.Once variant must not); results compared with the solo results",
 		Run: func(c *drv.Ctx, lo, hi int64) {
-			bin := os.Getenv("VERIF_RACE_BIN")
-			if bin == "" {
+			if os.Getenv("VERIF_RACE_BIN") == "" {
 				c.Warn("race binary not available: race pass skipped")
 				c.Cap("race binary not available")
 				return
@@ -715,56 +803,66 @@ func main() {
 					c.Count("scenarios_skipped_after_failures", 1)
 					continue
 				}
-				var sel string
 				if i < int64(npairs) {
 					a, b := pairOf(int(i), nops)
-					sel = fmt.Sprintf("pair:%d,%d:%d", a, b, reps)
+					raceSel(c, i, fmt.Sprintf("pair:%d,%d:%d", a, b, reps), -1)
 				} else {
-					sel = fmt.Sprintf("canary:%d", i-int64(npairs))
+					raceSel(c, i, fmt.Sprintf("canary:%d", i-int64(npairs)), int(i-int64(npairs)))
 				}
-				cmd := exec.Command(bin)
-				cmd.Env = append(os.Environ(), "VERIF_C15_RACE="+sel, "GORACE=halt_on_error=0 exitcode=0 history_size=2")
-				var eb bytes.Buffer
-				cmd.Stderr = &eb
-				out, err := cmd.Output()
-				ran := int64(strings.Count(string(out), "RAN "))
-				c.Eval(1)
-				c.Nontrivial(ran)
-				c.Count("race_pass_scenarios", ran)
-				races := strings.Count(eb.String(), "WARNING: DATA RACE")
-				c.Count("race_reports", int64(races))
-				if i >= int64(npairs) {
-					k := int(i - int64(npairs))
-					c.Outcome(fmt.Sprintf("canary %d races=%v", k, races > 0))
-					if err != nil || ((k == 0) != (races > 0) && k != 1) {
-						c.Fail(i, fmt.Sprintf("race-canary-%d-reported=%v(infrastructure)", k, races > 0), map[string]any{"err": fmt.Sprint(err), "stderr": tail(eb.String(), 2000)})
-					}
+			}
+		}})
+	// after-prior: one earlier call (run alone, to completion) and then a pair — state an earlier call leaves behind
+	family := func(keys ...string) []int {
+		var out []int
+		for i, o := range ops {
+			for _, k := range keys {
+				if strings.Contains(strings.ToLower(o.name), k) {
+					out = append(out, i)
+					break
+				}
+			}
+		}
+		return out
+	}
+	type after struct{ p, a, b int }
+	var afters []after
+	for gi, g := range [][]int{mn, dl, xm} {
+		fam := [][]int{family("mnemonic"), family("dilithium", "sharedkey"), family("xmss")}[gi]
+		for _, p := range fam {
+			for a := 0; a < len(g); a++ {
+				for b := a; b < len(g); b++ {
+					afters = append(afters, after{p, g[a], g[b]})
+				}
+			}
+		}
+	}
+	ck.Domains = append(ck.Domains, &drv.Domain{Name: "after-prior", Size: int64(len(afters)), Chunk: 1,
+		Desc: fmt.Sprintf("what an earlier call leaves behind: %d scenarios = every operation p of a family (mnemonic / Dilithium / XMSS, incl. the related-input and early-exit variants) run alone to completion, then every pair of the family's core group on 2 managed threads, every execution in a fresh process (preemption bound 0,1; thorough 2), and the same scenario free-running under the race detector", len(afters)),
+		Run: func(c *drv.Ctx, lo, hi int64) {
+			bound, reps := 1, 2
+			if c.Tier == "thorough" {
+				bound, reps = 2, 6
+			}
+			for i := lo; i < hi; i++ {
+				c.At(i)
+				if c.FailCount() >= 3 {
+					c.Count("scenarios_skipped_after_failures", 1)
 					continue
 				}
-				if err != nil {
-					// a Go runtime fatal error (e.g. concurrent map writes) is a finding of the free-running pass
-					if !strings.Contains(eb.String(), "go-qrllib") {
-						c.Cap("a race-pass process could not be run (infrastructure): " + err.Error())
-						continue
-					}
-					key := "race-pass-process-crashed:" + firstLibFrame(eb.String())
-					if strings.Contains(eb.String(), "fatal error: concurrent map") {
-						key = "fatal-concurrent-map-access:" + firstLibFrame(eb.String())
-					}
-					c.Fail(i, key, map[string]any{"selection": sel, "err": err.Error(), "stderr": tail(eb.String(), 3000)})
-					continue
+				s := afters[i]
+				bad, pbad := false, ""
+				scenarioPrefix = "after " + ops[s.p].name + ": "
+				st := exploreCase(c, i, "after-prior", []int{s.a, s.b}, priorBackend([]int{s.p}, []int{s.a, s.b}, &bad, &pbad), bound)
+				scenarioPrefix = ""
+				if bad {
+					c.Fail(i, "shared-input-buffers-modified", map[string]any{"scenario": ops[s.p].name + " ; " + ops[s.a].name + " || " + ops[s.b].name})
 				}
-				c.Outcome(fmt.Sprintf("races=%v", races > 0))
-				if k := strings.Index(string(out), "RESULT-DIFFERS"); k >= 0 {
-					line := string(out)[k:]
-					if e := strings.Index(line, "\n"); e > 0 {
-						line = line[:e]
-					}
-					c.Fail(i, "free-running-result-differs-from-solo", map[string]any{"selection": sel, "first": line, "data_race_reports": races})
+				if pbad != "" {
+					c.Fail(i, "prior-call-result-differs-from-solo", map[string]any{"observed": pbad})
 				}
-				if races > 0 {
-					fn := firstLibFrame(eb.String())
-					c.Fail(i, "data-race:"+fn, map[string]any{"selection": sel, "reports": races, "first_report": tail(firstReport(eb.String()), 4000)})
+				c.Outcome(fmt.Sprintf("outcomes=%d", len(st.Outcomes)))
+				if os.Getenv("VERIF_RACE_BIN") != "" {
+					raceSel(c, i, fmt.Sprintf("after:%d:%d,%d:%d", s.p, s.a, s.b, reps), -1)
 				}
 			}
 		}})
